@@ -619,7 +619,7 @@ func c17(r *core.Run) {
 		}
 	}
 	r.Floor("C17.REC", "analysis entry points", len(entries), 9)
-	reach := p.Reach(entries...)
+	reach := reachPrecise(p, entries...) // static calls, closures and resolved interface calls inside the module (whole-program graphs connect everything through the standard library)
 
 	sizeOK, sizeWhy := detSizeCap(p)
 	n := 0
